@@ -27,10 +27,11 @@ CFG = {
         "u32::MAX / 0 as target": r"^advance_(back_)?to i\d+ (0|4294967295) ",
     },
     "gaps": [
-        "Bitmap.WF -> C03.BitmapOK: the hypothesis of C03_init / C03_range is the part of well-formedness iteration needs (ascending u16 chunk keys; array chunks strictly ascending u16; bitset chunks of 1024 u64 words with exact cached len); the implication from the full Bitmap.WF is immediate but is stated with the core library (Bitmap.WF is not defined on this branch)",
+        "C03.BitmapOK (the hypothesis of C03_init / C03_range / C03_history_iter) is the part of well-formedness iteration needs (ascending u16 chunk keys; array chunks strictly ascending u16; bitset chunks of 1024 u64 words with exact cached len); it is now tied to the shared invariant: C03_BitmapOK_of_WF proves Bitmap.WF (RoaringModel/Inv.lean, established by every producer theorem of C01/C02/C09/C17/C05) implies it, and C03_init_WF / C03_range_WF / C03_history_iter_WF restate the theorems for every Bitmap.WF value (closed gap; kept here as a pointer)",
         "count / fold / rfold consume self: as steps of a history (C03_step, C03_history) they act on a clone (Clone is derived, identity in the model)",
         "modelled by contract, not verified: slice::Iter / vec::IntoIter (next, next_back, nth, nth_back, as_slice, len), slice::partition_point and binary_search_by_key on sorted input, the std default Iterator::nth / DoubleEndedIterator::nth_back / fold / rfold (repeated next / next_back); the default fold loops are totalised with fuel len()+1 and proved never to stop because of the fuel",
         "'each element once across both ends' is not a separate theorem: it is the cursor specification itself (next pops the head, next_back the last element of one strictly ascending list: C03_history + C03_ascending)",
+        "fidelity audit of the store kernels and 32-bit iterators (notes/fidelity-stores-iter32.md): BitmapIter (new, next with its word scan and early exits, next_back loop, advance_to 5 arms, advance_back_to 6 arms incl. the live-word choice, size_hint, count), store::Iter, container::Iter and bitmap Iter / IntoIter (and_then_or_clear, advance_to_impl / advance_back_to_impl, size_hint_impl, next / next_back loops, nth / nth_back with the captured n, fold / rfold / count, range / into_range) were all found mirrored branch for branch (class M; std adaptors class A); no simplified definition, nothing to switch",
         "thorough-tier exhaustive sweep of DESIGN §8 C03 (all cursor states x targets in a 4-word window) is replaced by the randomised window profile C03W (random (a, b) cursor pair per case, all targets of a 3-word window)",
     ],
     "theorem_samples": [
